@@ -72,6 +72,37 @@ def run(R):
         # generated keys stay inside the range the reference's trim_i8 encoding can represent (-2^(bits-1) is forbidden there too)
         c05.clause_repr(R, N, [pq["max_fg_bits"][logn], pq["max_fg_bits"][logn], pq["max_FG_bits"][logn]], rule="C16-keyrange")
         R.check(w[:2] == [pq["max_fg_bits"][logn]] * 2 and w[2] == pq["max_FG_bits"][logn], "C16-width", site, f"secret-key field widths {w} = PQClean max_fg_bits / max_FG_bits", f"{w} vs {pq['max_fg_bits'][logn]}, {pq['max_FG_bits'][logn]}", key=f"width|{N}")
+        # order of the three fields in the secret-key string (added after C16-r5m1: f, F, g written and read consistently):
+        # the widths handed to serialize_field_element during to_bytes, in call order, are N x fg, N x fg, N x FG as in the
+        # reference's trim_i8_encode calls. Decided only when the encoder goes through the helper 3N times with constant
+        # widths (otherwise recorded as not decided: the clause must not fire on another spelling of the encoder).
+        seqw = []
+
+        def obsw(ev, **kw):
+            if ev == "enter" and not ctx.quiet and "serialize_field_element" in kw["callee"].name and kw["args"]:
+                a = kw["args"][0]
+                try:
+                    seqw.append(kw["st"].const(a) if type(a) is I else None)
+                except Exception:
+                    seqw.append(None)
+        ctx.observers.append(obsw)
+        try:
+            stw = St()
+            S.run(S.find(f"falcon::SecretKey::<{N}>::to_bytes"), [S.cell(stw, "self", c05.encoder_values(S, stw, "SecretKey", N))], stw)
+        finally:
+            ctx.observers.remove(obsw)
+        wantw = [pq["max_fg_bits"][logn]] * (2 * N) + [pq["max_FG_bits"][logn]] * N
+        if len(seqw) == 3 * N and None not in seqw:
+            runs = [[seqw[0], 0]]
+            for x in seqw:
+                if x == runs[-1][0]:
+                    runs[-1][1] += 1
+                else:
+                    runs.append([x, 1])
+            R.check(seqw == wantw, "C16-skorder", f"SecretKey::<{N}>::to_bytes", f"field widths in write order: {2 * N} x {wantw[0]} bits (f, g) then {N} x {wantw[-1]} bits (F), the reference's order",
+                    f"field widths in write order are {runs} (width, count); the reference writes {2 * N} x {wantw[0]} then {N} x {wantw[-1]}", key=f"skorder|{N}")
+        else:
+            R.check(True, "C16-skorder", f"SecretKey::<{N}>::to_bytes", f"not decided: {len(seqw)} helper calls with constant width seen (needs {3 * N}); field order left to C05/C06 consistency", key=f"skorder|{N}")
         # decoders' accepted headers (shared with C06) and sizes; public key: 14-bit fields, values >= q rejected
         u8 = S.ty("u8")
         fa = []
